@@ -15,7 +15,7 @@ sys.path.insert(0, os.path.join(os.path.dirname(os.path.abspath(__file__)), '..'
 sys.path.insert(0, os.path.join(os.path.dirname(os.path.abspath(__file__)), '..', 'C06'))
 import nvwp                                                       # noqa: E402
 from nvwp import V, AND, NOT, OR, Unsupported                      # noqa: E402
-from cxx2c import unwrap                                           # noqa: E402
+from cxx2c import unwrap, strip_cv, qual                           # noqa: E402
 from linalg import LinWP, AV, MV, RV, real_of, rsum                # noqa: E402
 from eig import fold, rabs, rmax, type_str, lit_int                # noqa: E402
 
@@ -23,6 +23,7 @@ from eig import fold, rabs, rmax, type_str, lit_int                # noqa: E402
 class ProgWP(LinWP):
     def __init__(self, name, **kw):
         super().__init__(name, 1, **kw)          # concrete mode; the individual shapes are those of the bound inputs
+        self.objalias, self.enums = {}, {}
 
     # ------------------------------------------------------------------------------------------- inputs
     def vec(self, key, name, k):
@@ -44,11 +45,44 @@ class ProgWP(LinWP):
 
     this_prefix = 'self.'
 
+    def obj_key(self, base):
+        """env prefix of a named class-typed object: parameters are looked up by declaration id (a renamed parameter keeps its key);
+        `objalias` maps the parameter of a function walked in place (or of a second function walked in the same environment) to the
+        object it is bound to (`done(program, state, ..)`: program -> self, state -> the state program_t::update filled)"""
+        rd = base['referencedDecl']
+        nm = self.idmap.get(rd.get('id'), rd.get('name'))
+        seen = set()
+        while nm in self.objalias and nm not in seen:
+            seen.add(nm)
+            nm = self.objalias[nm]
+        return nm
+
     def member_name(self, n):
         base = unwrap(n['inner'][0])
         if base.get('kind') == 'CXXThisExpr':
             return self.this_prefix + n['name']          # `this` of a getter walked in place is the object it was called on
+        if base.get('kind') == 'DeclRefExpr' and getattr(self, 'objalias', None):
+            return self.obj_key(base) + '.' + n['name']
         return super().member_name(n)
+
+    def ev(self, n):
+        k = n.get('kind')
+        if k == 'DeclRefExpr' and n.get('referencedDecl', {}).get('kind') == 'EnumConstantDecl':
+            # an enumerator: enumerators of one enumeration are pairwise distinct integers (listed assumption; the values themselves are not used)
+            rd = n['referencedDecl']
+            key = (strip_cv(qual(rd.get('type'))), rd['name'])
+            if key not in self.enums:
+                self.enums[key] = len(self.enums)
+            return V(str(self.enums[key]), 'Int', 'int')
+        if k == 'BinaryOperator' and n.get('opcode') in ('&&', '||'):
+            # `A.rows() == 0 || (A * x - b).lpNorm<2>() < eps`: when the left operand folds to the deciding literal at the concrete shape the
+            # right operand is not evaluated (C++ short circuit; it may not even be defined: maxCoeff of an empty vector)
+            a = fold(self.conv(self.ev(n['inner'][0]), 'Bool', 'bool').t)
+            if (n['opcode'], a) in (('&&', 'false'), ('||', 'true')):
+                return V(a, 'Bool', 'bool')
+            if a in ('true', 'false'):
+                return self.conv(self.ev(n['inner'][1]), 'Bool', 'bool')
+        return super().ev(n)
 
     def read_stored(self, key, v):
         r = super().read_stored(key, v)
@@ -57,8 +91,8 @@ class ProgWP(LinWP):
         return r
 
     def cw(self, sym, a, b, node):
-        if isinstance(b, AV) and isinstance(a, V) and sym in '+-' and 'ArrayWrapper' in type_str(node):
-            r = self.bin_cw(sym, a, b, node)       # scalar +- array: Eigen broadcasts the scalar (arrays only; the functor was checked)
+        if isinstance(b, AV) and isinstance(a, V) and sym in '+-/' and 'ArrayWrapper' in type_str(node):
+            r = self.bin_cw(sym, a, b, node)       # scalar +- / array: Eigen broadcasts the scalar (arrays only; the functor was checked)
             return type(b)(r.c, r.n, r.deps)
         if isinstance(a, AV) and isinstance(b, V) and sym in '+-' and 'ArrayWrapper' in type_str(node):
             r = self.bin_cw(sym, a, b, node)
@@ -138,7 +172,7 @@ class ProgWP(LinWP):
                         new = MV(rhs.m)
                         new.cols = rhs.cols
                     elif isinstance(old, AV) and not isinstance(old, RV) and isinstance(rhs, AV) and not isinstance(rhs, RV):
-                        new = AV(rhs.c, str(len(rhs.c)))
+                        new = AV(rhs.c, str(len(rhs.c)) if self.dim is not None else rhs.n)      # generic coordinate: the symbolic length
                     else:
                         raise Unsupported(f'{self.name}: {type(rhs).__name__} assigned to the {type(old).__name__} {key}')
                     self.env[key] = new
@@ -226,6 +260,16 @@ class ProgWP(LinWP):
 
     def decl_hook(self, wp, v, init):
         """`auto Ab = stack(..)` / `vector_t x = ..`: a local that OWNS its coefficients is a stored tensor of its own (a copy of the value)"""
+        if init and v['type']['qualType'].rstrip().endswith('&') and not v['type']['qualType'].rstrip().endswith('&&'):
+            u = unwrap(init[0])
+            if u.get('kind') == 'MemberExpr':                # `const auto& A = m_A;`: another name of the stored member
+                try:
+                    key = self.member_name(u)
+                except Unsupported:
+                    key = None
+                if key is not None and isinstance(self.env.get(key), (AV, MV)) and key in self.ver:
+                    self.alias[v['name']] = key
+                    return True
         if init and type_str(v).startswith('nano::tensor_t<nano::tensor_vector_storage_t') and not v['type']['qualType'].rstrip().endswith('&'):
             val = self.ev(init[0])
             if isinstance(val, MV):
